@@ -9,6 +9,7 @@ import SkNet.Lemmas.TerminateSeen
 import SkNet.Lemmas.TerminateLouvain
 import SkNet.Lemmas.ModularityFit
 import SkNet.Lemmas.KernelsHeap
+import SkNet.Lemmas.KernelsWL
 
 namespace SkNet.C17
 open SkNet SkNet.IR
@@ -203,5 +204,25 @@ theorem minheap_reserve_out_of_bounds :
     KHeap.computeCore? false [0, 1, 3, 5, 6] [1, 0, 2, 1, 3, 2] = .error .oob ∧
     KHeap.computeCore? true [0, 1, 3, 5, 6] [1, 0, 2, 1, 3, 2] = .ok [1, 1, 1, 1] := by
   constructor <;> decide +kernel
+
+/-! ## 4. Weisfeiler–Lehman: the colour counter stays an index of `powers` -/
+
+/-- **wl_colours_in_range.**  The one access of `weisfeiler_lehman_coloring` on a fixed array that the index kinds
+    cannot type is `powers[labels[j]]` (`powers` has `n` cells, the colours come from a counter).  On the model of
+    C02, for any hash: every colour produced by a round is `< n` — the counter starts at 0 and is bumped at most
+    once per sorted node after the first — and the kernel keeps colours `< n` whatever the number of rounds; the
+    `while iteration < max_iter and has_changed` loop makes at most `max_iter ≤ n` rounds (the model recurses on
+    that bound). -/
+theorem wl_colours_in_range (ops : WL.HashOps H) (adj : List (List Nat)) (k : Nat) (labels : List Nat) (ch : Bool)
+    (h : ∀ c ∈ labels, c < adj.length) : ∀ c ∈ (WL.coloring ops adj k labels ch).1, c < adj.length :=
+  KWL.coloring_lt ops adj k labels ch h
+
+/-- `color_weisfeiler_lehman` on a non-empty graph only returns colours `< n` -/
+theorem wl_entry_colours_in_range (ops : WL.HashOps H) (adj : List (List Nat)) (maxIter : Option Nat)
+    (hn : 0 < adj.length) : ∀ c ∈ WL.colorWL ops adj maxIter, c < adj.length :=
+  KWL.colorWL_lt ops adj maxIter hn
+
+/-- non-vacuity: the path 0–1–2 gets the colours `[0, 1, 0]`, all `< 3` -/
+example : WL.colorWL WL.exactOps [[1], [0, 2], [1]] none = [0, 1, 0] := by decide +kernel
 
 end SkNet.C17
